@@ -38,7 +38,8 @@ def run(ch, build):
     for pref in prefs:
         for adv in subsets:
             bmc = conn.default_bmc(seed=3, suites=[[IDS[s], s[0], s[1], s[2]] for s in adv])
-            scns.append({"bmc": bmc, "timeout_ms": 40, "pref": pref, "adv": adv, "steps": [hs.open_step(suites=pref)]})
+            scns.append({"bmc": bmc, "timeout_ms": 40, "pref": pref, "adv": adv, "steps": [
+                hs.open_step(suites=pref), {"op": "cmd", "conn": "session", "cmd": {"name": "getdeviceid"}, "script": ["ok"]}]})
     nsel = len(scns)
     # confirmation sweep
     vals = [0, 1, 2, 3, 4, 5, 6, 7, 0x30, 0x3f]
@@ -88,6 +89,12 @@ def run(ch, build):
         else:
             if proposed != want:
                 ch.violation(desc, {"scenario": scn, "what": "proposed %s, the first supported preference is %s" % (proposed, want), "err": res["err"]})
+            # ... and is the suite the session then USES: the BMC, which checks and decrypts with the algorithms it confirmed,
+            # accepts the first command (UNIVERSE contains a suite whose authentication and integrity hashes differ)
+            r2 = out["steps"][1]
+            if res["err"] == "nil" and (r2["err"] != "nil" or not r2["bmc"] or not all(e["accepted"] for e in r2["bmc"])):
+                ch.violation(desc, {"scenario": scn, "what": "the session does not use the negotiated suite %s: its first command is not accepted by the BMC" % (want,),
+                                    "events": r2["bmc"], "err": r2["err"]})
             if bool(discovery) != disc:
                 ch.violation(desc, {"scenario": scn, "what": "discovery traffic %s expected %s" % (bool(discovery), disc)})
             model_want = "%d/%d/%d discovery=%s" % (want + ("true" if disc else "false",))
